@@ -23,7 +23,7 @@ def run_script(wl_bin, lines, timeout=600, env_extra=None):
 def run_tracecheck(transcript, timeout=600):
     p = subprocess.run([tracecheck_path()], input=transcript, stdout=subprocess.PIPE, stderr=subprocess.PIPE, text=True, timeout=timeout)
     out = p.stdout.strip().split('\n')
-    problems = [l for l in out if l.startswith(('MISMATCH', 'VIOLATION'))]
+    problems = [l for l in out if l.startswith(('MISMATCH', 'VIOLATION', 'KNOWN'))]
     done = [l for l in out if l.startswith('done ')]
     stats = {}
     if done:
@@ -90,6 +90,9 @@ def run_histories(chk, n, nops, tag_filter, label, family=None, seed_salt='', jo
         nontrivial = (r['stats'].get('flushes', 0) >= 1 and r['stats'].get('compactions', 0) + r['stats'].get('trivialmoves', 0) >= 1) or r['stats'].get('crashnonempty', 0) >= 5 or r['stats'].get('werr', 0) >= 1
         chk.note_case((label, r['family'], r['opts'], r['stats'].get('flushes', 0), r['stats'].get('compactions', 0), r['stats'].get('gets', 0), r['stats'].get('crashes', 0), r['transcript_len']), nontrivial)
         for p in r['problems']:
+            if p.startswith('KNOWN'):
+                chk.extra.setdefault('known_seen', set()).add(p.split()[1])
+                continue
             m = re.match(r'(MISMATCH|VIOLATION)\[([^\]:]*)(?::([^\]]*))?\]', p)
             tag = m.group(2) if m else 'other'
             full = tag + (':' + m.group(3) if m and m.group(3) else '')
